@@ -420,6 +420,13 @@ def gen_scaled(rng, g, cfg, name, nodes, prices):
         a['min_scale'] = rng.choice([0.0, 0.0, 0.5])
         a['max_scale'] = a['min_scale'] + rng.choice([1.0, 2.0, 4.0])
     a['fix_costs'] = rng.choice([0.0, 0.125, 1.0, 2.5])
+    if rng.random() < cfg.get('p_window_scaled', 0.25):
+        # the scaled asset's own life time (fixed costs count for its duration only)
+        s0, e0 = gen_window(rng, g, dict(cfg, p_window=1.0, window_kinds=['inside', 'left', 'right']))
+        if s0 is not None:
+            a['start'] = s0
+        if e0 is not None:
+            a['end'] = e0
     return a
 
 
